@@ -172,7 +172,7 @@ func genPmt(g *core.Gen) {
 	r := g.R
 	emit := func(class string, bits []byte) {
 		any := bytes.IndexByte(bits, '1') >= 0
-		g.Case(class, any && len(bits) > 1, fmt.Sprintf("C20 pmt %d %s", r.U32(), string(bits)))
+		rec(g, class, any && len(bits) > 1, fmt.Sprintf("C20 pmt %d %s", r.U32(), string(bits)))
 	}
 	// every subset for n <= 5 (quick) / 8 (thorough)
 	maxAll := g.N(5, 8)
@@ -185,7 +185,7 @@ func genPmt(g *core.Gen) {
 			emit("pmt-all-subsets", b)
 		}
 	}
-	g.Case("pmt-empty-block", false, "C20 pmt 1 -")
+	rec(g, "pmt-empty-block", false, "C20 pmt 1 -")
 	shapes := func(n int) [][]byte {
 		mk := func(f func(i int) bool) []byte {
 			b := make([]byte, n)
